@@ -69,7 +69,7 @@ def _prune_cache(keep):
     except OSError:
         return
     ents.sort(key=lambda p: os.path.getmtime(p), reverse=True)
-    for p in ents[6:]:
+    for p in ents[60:]:
         if p != keep:
             shutil.rmtree(p, ignore_errors=True)
     for d in os.listdir(CACHE):
